@@ -23,6 +23,7 @@ func init() {
 		Assumptions: []string{"layers come from the independent layer functions (CRC-64/ECMA and divisibility re-implemented) or the user key's assigned layer"},
 		MinObs:      map[string]int64{"versions_walked": 2000, "versions_h_ge2_after_delete": 100, "nodes_checked": 10000, "passthrough_nodes_seen": 5},
 		Run:         runC09,
+		EvalObs:     []string{"versions_walked"},
 	})
 }
 
